@@ -4,7 +4,7 @@ from collections import Counter, defaultdict
 
 from hypothesis import strategies as st
 
-from vlib import parse, pipeline, scenario as S, reads as R
+from vlib import build, parse, pipeline, scenario as S, reads as R
 from vlib.refmodel import compat
 from vlib.shard import Stage, case_hash
 
@@ -422,6 +422,91 @@ def evaluate_twins(case, ctx):
 
 
 @st.composite
+def crowded_end_scenarios(draw):
+    """A gene in which n further isoforms use a donor site a few bases in front of the end of isoform T (their last exons
+    lie beyond T): annotated introns that begin behind the polyA site of a read of T.  The read follows T exactly,
+    ends a little before T's annotated end and carries a soft-clipped tail; isoform Y shares T's intron chain and ends
+    100 bp earlier.  T is compatible, and the only isoform whose end the tail supports."""
+    src = S.DrawSrc(draw)
+    strand = src.choice(["+", "-"])
+    base = src.int(400, 900)
+    e1 = [base, base + src.int(200, 320)]
+    e2 = [e1[1] + src.int(500, 800), 0]
+    e2[1] = e2[0] + src.int(150, 220)
+    e3 = [e2[1] + src.int(600, 900), 0]
+    e3[1] = e3[0] + src.int(450, 520)
+    T = [e1, e2, e3]
+    Y = [list(e1), list(e2), [e3[0], e3[1] - 100]]
+    n = src.int(2, 8)
+    donor = e3[1] - src.int(6, 14)
+    trs = [{"id": "T", "exons": T}, {"id": "Y", "exons": Y}]
+    pos = e3[1] + src.int(400, 600)
+    for i in range(n):
+        last = [pos, pos + src.int(150, 250)]
+        pos = last[1] + src.int(200, 400)
+        trs.append({"id": "X%d" % (i + 1), "exons": [list(e1), list(e2), [e3[0], donor], last]})
+    length = pos + src.int(800, 1500)
+    short = src.int(12, 30)
+    chain = [list(e1), list(e2), [e3[0], e3[1] - short]]
+    if src.bool(0.3):
+        chain = chain[1:]                    # a 5'-truncated read
+    genes = [{"id": "G1", "chr": "chr1", "strand": "+", "canon": "canon", "transcripts": trs}]
+    overrides = []
+    for t in trs:
+        overrides += build.splice_overrides("chr1", t["exons"], "+")
+    reads = [S.exact_read("r%d" % (i + 1), "chr1", "+", chain, polya=src.int(22, 32)) for i in range(src.int(1, 3))]
+    sc = {"chroms": [["chr1", length, src.int(1, 10 ** 6)]], "genes": genes, "overrides": overrides, "reads": reads,
+          "nfiles": 1, "gtf": {"gene_records": True, "transcript_records": True},
+          "opts": ["--data_type", src.choice(S.DATA_TYPES), "--no_gzip", "--threads", "1", "--no_model_construction"],
+          "n_crowd": n}
+    sc["mirror"] = strand == "-"
+    return sc
+
+
+def evaluate_crowded(case, ctx):
+    sc = dict(case)
+    if sc.get("mirror"):
+        # the same locus on the minus strand (reverse complement of genome, annotation and reads)
+        from vlib.refmodel import transform as T_
+        genome = build.make_genome(sc)
+        sc2, g2 = T_.reflect_inputs(sc, genome)
+        sc2["opts"] = sc["opts"]
+        d = ctx.scratch()
+        ind = os.path.join(d, "in")
+        os.makedirs(ind, exist_ok=True)
+        fa = os.path.join(ind, "genome.fa")
+        build.write_fasta(g2, fa, [c[0] for c in sc2["chroms"]])
+        gp = os.path.join(ind, "annot.gtf")
+        build.write_gtf(sc2, gp)
+        paths = {"fasta": fa, "gtf": gp, "bams": build.write_bams(sc2, g2, ind), "genome": g2}
+        res = pipeline.run_case(sc2, ctx, d=d, paths=paths)
+    else:
+        res = pipeline.run_case(sc, ctx)
+    try:
+        tsvp = res.path("read_assignments.tsv")
+        if res.code != 0 or not tsvp:
+            ctx.note("crash:" + res.crash_signature())
+            return
+        rows = parse.read_assignments(tsvp)
+        ctx.cls("crowded:n=%d" % sc["n_crowd"])
+        ctx.mark_nontrivial(case_hash(case))
+        by = defaultdict(list)
+        for r in rows:
+            by[r["read_id"]].append(r)
+        for r in sc["reads"]:
+            rws = by.get(r["n"], [])
+            isos = sorted(set(x["isoform"] for x in rws))
+            typ = rws[0]["type"] if rws else None
+            if typ not in CONSISTENT or "T" not in isos:
+                ctx.violation("C01:read-of-T-with-a-tail-near-its-end:%s" % (
+                    "not-reported" if not rws else "not-consistent" if typ not in CONSISTENT else "misses-T"),
+                    {"read": r["n"], "type": typ, "isoforms": isos, "n_isoforms_with_the_late_donor": sc["n_crowd"],
+                     "events": sorted(set(e.split(":")[0] for x in rws for e in x["events"]))}, case)
+    finally:
+        res.cleanup()
+
+
+@st.composite
 def file_scenarios(draw):
     """One experiment given as two BAM files (two samples): every read is assigned as it is when its file is given
     alone.  Read names are unique within a file; across the files they are distinct or - per-sample sequential names
@@ -491,4 +576,5 @@ def stages(tier):
     q = tier == "quick"
     return [Stage("assign", "hyp", evaluate, n=384 if q else 8000, strategy=scenarios),
             Stage("twins", "hyp", evaluate_twins, n=192 if q else 3000, strategy=twin_scenarios),
-            Stage("files", "hyp", evaluate_files, n=64 if q else 1000, strategy=file_scenarios)]
+            Stage("files", "hyp", evaluate_files, n=64 if q else 1000, strategy=file_scenarios),
+            Stage("crowded_end", "hyp", evaluate_crowded, n=64 if q else 1000, strategy=crowded_end_scenarios)]
